@@ -412,7 +412,10 @@ def intrinsicItem (k : AlgoConstants α) (availableSpace : Size (AvailableSpace 
   let diff := contentContribution - item.flexBasis
   let contentFlexFraction : α :=
     if Num.fgt diff 0 then diff / Num.fmax 1 item.flexGrow
-    else if Num.flt diff 0 then diff / Num.fmax 1 (item.flexShrink * item.innerFlexBasis)
+    else if Num.flt diff 0 then
+      -- the scaled flex shrink factor, the flex shrink factor (not the product) floored at 1
+      let scaledShrinkFactor := Num.fmax 1 item.flexShrink * item.innerFlexBasis
+      if Num.fgt scaledShrinkFactor 0 then diff / scaledShrinkFactor else 0
     else 0
   pure { item with contentFlexFraction }
 
